@@ -270,6 +270,9 @@ func deferClobbers(fn *core.FuncInfo) []clobber {
 				if guardedByNil(info, lit.Body, as, res) {
 					continue
 				}
+				if keepsFailure(fn, lit, res) {
+					continue
+				}
 				out = append(out, clobber{Pos: as.Pos(), Text: core.ExprString(l) + " " + as.Tok.String() + " " + rhsString(as)})
 			}
 			return true
@@ -728,4 +731,23 @@ func recoverSurfaces(r *core.Run, rule string, fns []*core.FuncInfo) int {
 		})
 	}
 	return n
+}
+
+// keepsFailure: entered with the named error result non-nil, the deferred literal leaves it non-nil on every path
+// (it may replace the error by another one — a failed clean-up's — but never by nil).
+func keepsFailure(fn *core.FuncInfo, lit *ast.FuncLit, res types.Object) bool {
+	if curWorld == nil {
+		return false
+	}
+	sp := &flow.Spec{W: curWorld, Depth: 0}
+	r := sp.AnalyzeLitSeed(fn.Pkg, lit, func(s *flow.State) { s.SetNil(res, false) })
+	if len(r.Exits) == 0 {
+		return false
+	}
+	for _, ex := range r.Exits {
+		if !ex.St.IsNonNil(res) {
+			return false
+		}
+	}
+	return true
 }
